@@ -4,6 +4,8 @@ A sidecar (contracts/<id>/<unit>.spec.c) carries directives in //@ comments:
   //@ tus <tu> ...            translation units to index (relative to src/qtlogger, or verif:<file>)
   //@ lower <Qualified::name>[#<sigsuffix>] ...   real functions whose lowered bodies go into the unit
   //@ structs <Qualified::Record> ...            record layouts to emit although no lowered function needs them
+  //@ loopbody <c_function> <k>                   emit the body of the k-th loop (a while loop) of that lowered function as a function
+                                                  <c_function>_loop<k>_body (and its guard) so that a step contract can be enforced on it
   //@ enforce <c_function> [key=value ...]        one proof: contract of that lowered function is enforced
   //@ lemma <c_function> [key=value ...]          one proof: harness written in the sidecar (no enforce)
   //@ ---                                         separator: part 1 (models) / part 2 (contracts)
@@ -34,7 +36,7 @@ class Unit:
     def __init__(self, prop, path):
         self.prop = prop; self.path = path
         self.name = os.path.basename(path).replace('.spec.c', '')
-        self.tus = []; self.lower = []; self.proofs = []; self.structs = []
+        self.tus = []; self.lower = []; self.proofs = []; self.structs = []; self.loopbodies = set()
         self.part1 = ''; self.part2 = ''
         self.parse()
         self.dir = os.path.join(BUILD, prop, self.name)
@@ -51,6 +53,8 @@ class Unit:
                 if d == 'tus': self.tus += rest.split()
                 elif d == 'lower': self.lower += rest.split()
                 elif d == 'structs': self.structs += rest.split()
+                elif d == 'loopbody':
+                    a = rest.split(); self.loopbodies.add((a[0], a[1]))
                 elif d in ('enforce', 'lemma'):
                     parts = rest.split()
                     opts = dict(p.split('=', 1) for p in parts[1:])
@@ -100,7 +104,7 @@ class Unit:
             index_cache[key] = cxxast.Index(self.tus)
         ix = index_cache[key]
         L = lower.Lowerer(ix)
-        L.find_ifs = []; L.lambda_names = set()
+        L.find_ifs = []; L.lambda_names = set(); L.loopbody_requests = set(self.loopbodies)
         order = []
         for spec in self.lower:
             q, _, sig = spec.partition('#')
